@@ -18,7 +18,9 @@ def handle (op : String) (args : List String) : Option String :=
     let i ← inSize.toNat?
     if cls == "timeout" || bucket == "timeout" then pure ("fails time:" ++ fname)
     else if bucket == "slow" then pure ("fails slow:" ++ fname)
-    else if o > 4096 + 256 * i then pure ("fails size:" ++ fname)
+    -- "grows its output without bound": far beyond anything proportional to the input; a documented cap such
+    -- as random_bytes' 64 KiB (131074 characters on the wire) is bounded
+    else if o > 2097152 + 256 * i then pure ("fails size:" ++ fname)
     else pure "holds"
   | "o.c14", [_src, _event, _metadata, _seed, "|", sameCompile, sameText, cleared, threads, _status] =>
     -- determinism observed on the implementation
